@@ -3,6 +3,7 @@ package main
 import (
 	"errors"
 	"fmt"
+	"strings"
 	"sync"
 	"sync/atomic"
 	"time"
@@ -88,6 +89,8 @@ type callCase struct {
 	TOCls   string
 	Req     headerSet
 	Rsp     headerSet
+	// BlockTarget > 0: pad the request header block to exactly this many bytes
+	BlockTarget int
 
 	mu              sync.Mutex
 	callerReqBefore map[string]string
@@ -157,6 +160,9 @@ func genCase(run *ev.Run, leg string, legIdx, i int, maxLong int) *callCase {
 }
 
 func (cs *callCase) shape() string {
+	if cs.BlockTarget > 0 {
+		return fmt.Sprintf("%s|%s|block=%d", cs.Leg, cs.Method, cs.BlockTarget)
+	}
 	shadow := ""
 	if cs.Rsp.Classes["n:shadow"] {
 		shadow = "S"
@@ -197,17 +203,19 @@ func keyOfCall(c *e2e.Call) string {
 }
 
 type legRun struct {
-	m       *monitor
-	spec    legSpec
-	name    string
-	leg     *e2e.Leg
-	cases   sync.Map // key -> *callCase
-	abort   int32
-	connMu  sync.Mutex
-	conn    *clientConn
-	summary []caseSummary
-	issued  map[string]bool // op ids of every call issued in the current batch
-	sumMu   sync.Mutex
+	m      *monitor
+	spec   legSpec
+	name   string
+	leg    *e2e.Leg
+	cases  sync.Map // key -> *callCase
+	abort  int32
+	connMu sync.Mutex
+	conn   *clientConn
+
+	nNotDelivered, nVerified int64
+	summary                  []caseSummary
+	issued                   map[string]bool // op ids of every call issued in the current batch
+	sumMu                    sync.Mutex
 }
 
 // caseSummary is what is kept of a case for the wire-tap pass at the end.
@@ -409,17 +417,39 @@ func (lr *legRun) current() *clientConn {
 }
 
 func (lr *legRun) oneCall(cs *callCase) {
-	m := lr.m
-	cc := lr.current()
-	if cc == nil {
-		return
+	if cc := lr.current(); cc != nil {
+		lr.oneCallOn(cc, cs)
 	}
+}
+
+// newConn opens a connection of its own (directed cases).
+func (lr *legRun) newConn() *clientConn {
+	c, _, err := lr.leg.Client()
+	if err != nil {
+		lr.m.run.Inconclusive("leg " + lr.name + " client: " + err.Error())
+		atomic.StoreInt32(&lr.abort, 1)
+		return nil
+	}
+	lr.m.run.Add("client_connections", 1)
+	return &clientConn{c: c, bad: make(chan struct{})}
+}
+
+func (lr *legRun) oneCallOn(cc *clientConn, cs *callCase) {
+	m := lr.m
 	ctx := frugal.NewFContext(cs.CID)
 	if cs.TOms > 0 {
 		ctx.SetTimeout(time.Duration(cs.TOms) * time.Millisecond)
 	}
 	for _, p := range cs.Req.Pairs {
 		ctx.AddRequestHeader(p.Name, p.Value)
+	}
+	if cs.BlockTarget > 0 {
+		// directed case: pad the header block to exactly BlockTarget bytes
+		if pad := cs.BlockTarget - blockSize(ctx.RequestHeaders()) - (8 + len("pad")); pad >= 0 {
+			v := strings.Repeat("x", pad)
+			ctx.AddRequestHeader("pad", v)
+			cs.Req.Pairs = append(cs.Req.Pairs, wire.Pair{Name: "pad", Value: v})
+		}
 	}
 	cs.callerReqBefore = ctx.RequestHeaders()
 	cs.callerOpID = cs.callerReqBefore["_opid"]
@@ -585,6 +615,14 @@ func (lr *legRun) settleLostReply(cs *callCase, cc *clientConn) {
 // context the caller built was not handed over at all.
 func (lr *legRun) notDelivered(cs *callCase, how string) {
 	lr.m.run.Add("calls_not_delivered", 1)
+	// circuit breaker: the verdict is settled by the first such call; when
+	// nothing gets through at all, or it keeps happening, stop issuing calls on
+	// this leg (each one costs a timeout)
+	if nd := atomic.AddInt64(&lr.nNotDelivered, 1); (nd >= 2 && atomic.LoadInt64(&lr.nVerified) == 0) || nd >= 12 {
+		if atomic.CompareAndSwapInt32(&lr.abort, 0, 1) {
+			lr.m.run.Add("legs_stopped_after_repeated_non_delivery", 1)
+		}
+	}
 	size := blockSize(cs.callerReqBefore)
 	lr.m.noteUndelivered(fmt.Sprintf("%s case %d (%s, request header block %d bytes): %s: %v", lr.name, cs.Index, cs.Method, size, how, cs.callErr))
 	lr.violation("request-not-delivered", "a call with a legal FContext was rejected or dropped below the handler ("+how+"): the handler never observed the caller's headers", cs,
@@ -601,6 +639,7 @@ func (lr *legRun) verify(cs *callCase) {
 		m.run.Inconclusive(fmt.Sprintf("%s case %d (%s): the call returned but the handler was not reached", lr.name, cs.Index, cs.Method))
 		return
 	}
+	atomic.AddInt64(&lr.nVerified, 1)
 	m.run.Add("handler_observations", 1)
 	m.run.Distinct(cs.shape())
 	m.run.Sample(map[string]interface{}{"leg": cs.Leg, "method": cs.Method, "outcome": cs.Outcome, "caller_request_headers": qmap(cs.callerReqBefore),
